@@ -142,12 +142,33 @@ static void compare_values(const vt_t* t, const void* a, const void* b, const ch
     std::free(o2);
 }
 
+// The heap as seen by the generated code is bounded: while a decode runs, no single allocation may be larger than anything the
+// destination type could legitimately hold (a generous multiple of the extent of the type being decoded). An allocation sized by
+// a length taken from the wire before it is validated exceeds it.
+static volatile std::size_t g_largest_alloc_in_codec = 0;
+static volatile int         g_in_codec               = 0;
+static std::size_t          g_alloc_limit            = 0;
+static void alloc_hook(const volatile void*, std::size_t size)
+{
+    if (g_in_codec && size > g_largest_alloc_in_codec) { g_largest_alloc_in_codec = size; }
+}
+static void free_hook(const volatile void*) {}
+extern "C" int __sanitizer_install_malloc_and_free_hooks(void (*)(const volatile void*, std::size_t), void (*)(const volatile void*));
+
 static void do_des(const vt_t* t, slot_t* s, const std::uint8_t* bytes, std::size_t len, bool null_if_empty)
 {
     std::uint8_t* buf      = exact_copy(bytes, len, null_if_empty);
     std::size_t   consumed = 0;
     const int     prior    = s->state;
+    g_largest_alloc_in_codec = 0;
+    g_in_codec               = 1;
     const int     rc       = t->des(s->obj, buf, len, &consumed);
+    g_in_codec             = 0;
+    g_alloc_limit = t->extent * 64u + 65536u;
+    if (g_largest_alloc_in_codec > g_alloc_limit)
+    {
+        fail("des-allocation-larger-than-the-type-can-hold", t, static_cast<long>(g_largest_alloc_in_codec), static_cast<long>(g_alloc_limit));
+    }
     if (!documented(rc)) { fail("des-undocumented-return-code", t, rc, 0); }
     if (rc == 0 && consumed > len) { fail("des-consumed-more-than-supplied", t, static_cast<long>(consumed), static_cast<long>(len)); }
     void*         fresh     = t->create();
@@ -212,6 +233,7 @@ int main(int argc, char** argv)
     std::fclose(f);
     if (total < 4 || std::memcmp(script, "NVS1", 4) != 0) { return 2; }
     SLOTS.resize(N_TYPES);
+    __sanitizer_install_malloc_and_free_hooks(alloc_hook, free_hook);
     for (std::size_t i = 0; i < N_TYPES; i++)
     {
         for (int k = 0; k < K_SLOTS; k++) { SLOTS[i].push_back(slot_t{TYPES[i].create(), ST_FRESH}); }
